@@ -25,6 +25,7 @@ J01 == Judge \in {"C01", "ALL"}
 J13 == Judge \in {"C13", "ALL"}
 J14 == Judge \in {"C14", "ALL"}
 J11 == Judge \in {"C11", "ALL"}
+J12 == Judge \in {"C12", "ALL"}
 
 E == Trace[l]
 IsEvent(e) == l <= Len(Trace) /\ Trace[l].ev = e /\ l' = l + 1
@@ -69,8 +70,8 @@ T_Wire ==
     /\ IsEvent("Wire") /\ phase \in {"queue", "flush"}
     /\ (J13 => ~cancelled)                           \* C13: a send with a cancelled context writes nothing
     /\ E.hlen = 8 + E.n                              \* header length = real size
-    /\ (J01 => E.chan = chan)
-    /\ (J01 /\ chan > 0 => E.nr = nr)                \* consecutive packet numbers on logical channels
+    /\ (J01 \/ J12 => E.chan = chan)                 \* every packet carries its channel's id (C12: also the terminating one)
+    /\ ((J01 \/ J12) /\ chan > 0 => E.nr = nr)       \* consecutive packet numbers on logical channels
     /\ nr' = IF chan > 0 THEN (nr + 1) % 256 ELSE nr
     /\ IF judged /\ J01
        THEN /\ E.hlen <= ps                          \* never exceeds the packet size in force
